@@ -6,6 +6,7 @@ TRUSTED_BASE = [
     "axioms allowed: propext, Quot.sound, Classical.choice (audited with #print axioms on every claimed theorem); no sorry/admit/native_decide/bv_decide/implemented_by/unsafe/custom axioms (grep, comments stripped)",
     "the statements in lean/GramModel/Props/*.lean and the small specifications they mention",
     "correspondence harness (harness/: Rust serialiser, generators) and Lean line-protocol driver (lean/Driver): differential testing ties the hand-written model to /repo's current sources",
+    "table extractor extract/extract.py and arm translator extract/arms.py (regenerate Generated/*.lean from /repo's sources on every run: keyword and line-break tables, is_value, printer partition, hash-iteration / panic / nondeterminism sites, grammar.y, and the match arms of signed_shift, open, free_variables, step, normalize_weak_head, type_check_rec, unify, syntactically_equal, Display, the tokenizer's symbol arms and the steps of the 36 parse functions); the interpretation of the arm tables is PROVED equal to the model functions, the extraction itself is trusted",
     "Lean's code generator for the compiled driver (correspondence only, not the theorems)",
 ]
 
